@@ -193,16 +193,26 @@ def to_stmts(n) -> List[dict]:
             if c.get("kind") == "CompoundStmt":
                 out.append({"k": "block", "body": to_block(c)})
             elif c.get("kind") == "CXXCatchStmt":
-                out.append({"k": "block", "body": to_block((c.get("inner") or [{}])[-1])})
+                out.append({"k": "block", "body": to_block((c.get("inner") or [{}])[-1]), "catch": True})
         return out
     return [{"k": "expr", "e": to_expr(n)}]
+
+
+class CalleeName(str):
+    """the callee's name; .sig carries the type of the declaration overload resolution selected (None if unresolved)"""
+    sig = None
 
 
 def _name_of_callee(c):
     c = _strip(c)
     k = c.get("kind")
     if k == "DeclRefExpr":
-        return c.get("referencedDecl", {}).get("name")
+        nm = c.get("referencedDecl", {}).get("name")
+        if nm is None:
+            return None
+        out = CalleeName(nm)
+        out.sig = (c.get("referencedDecl", {}).get("type") or {}).get("qualType")
+        return out
     if k == "UnresolvedLookupExpr":
         return c.get("name")
     return None
